@@ -2,7 +2,8 @@
 `format` (cty/function/stdlib/format.go, format_fsm.rl): the verb scanner, the
 argument-index bookkeeping, `%%`, the per-verb dispatch of `formatAppend`, and
 the width / precision handling of strings on grapheme clusters are modelled as
-written.  The digit rendering of the numeric verbs (`fmt.Sprintf` on a
+written, including the saturating digit accumulation (`formatArgNumAppendDigit`) and
+the width / precision limit (`formatMaxWidthPrec`).  The digit rendering of the numeric verbs (`fmt.Sprintf` on a
 `*big.Int` / `*big.Float`), `Text('g', -1)` and JSON string quoting are library
 calls: fields of `L : Lib`.  The ragel-generated state machine is replaced by a
 hand-written scanner for the same grammar
@@ -45,48 +46,68 @@ def takeFlags : List Char → Verb → Verb × List Char
     else (v, c :: rest)
   | [], v => (v, [])
 
-/-- `digit*` accumulated in decimal: (value, digits consumed, rest) -/
+/-- the largest Go `int` (64-bit platforms) -/
+def goMaxInt : Nat := 9223372036854775807
+
+/-- `formatMaxWidthPrec` -/
+def formatMaxWidthPrec : Nat := 1000000
+
+/-- `formatArgNumAppendDigit` (since /repo 721dbdb, 84cbc5e): append one decimal digit to an
+argument number, width or precision, SATURATING at the largest int instead of wrapping -/
+def appendDigit (n : Nat) (c : Char) : Nat :=
+  if n > (goMaxInt - 9) / 10 then goMaxInt else 10 * n + (c.toNat - 48)
+
+/-- `digit*`, each digit through `appendDigit`: (value, digits consumed, rest) -/
 def takeDigits : List Char → Nat → List Char → Nat × List Char × List Char
-  | c :: rest, acc, seen => if isDigit c then takeDigits rest (10 * acc + (c.toNat - 48)) (seen ++ [c]) else (acc, seen, c :: rest)
+  | c :: rest, acc, seen => if isDigit c then takeDigits rest (appendDigit acc c) (seen ++ [c]) else (acc, seen, c :: rest)
   | [], acc, seen => (acc, seen, [])
+
+/-- width: `num = [1-9][0-9]*` (`width_reset`, `width_num`, `has_width`) -/
+def scanWidth (v : Verb) (r : List Char) : Verb × List Char :=
+  match r with
+  | c :: _ =>
+    if isDigit c && c != '0' then
+      let d := takeDigits r 0 []
+      ({ v with hasWidth := true, width := d.1, raw := v.raw ++ d.2.1 }, d.2.2)
+    else (v, r)
+  | [] => (v, r)
+
+/-- precision: `'.' digit*` (`prec_reset`, `prec_num`, `has_prec`) -/
+def scanPrec (v : Verb) (r : List Char) : Verb × List Char :=
+  match r with
+  | '.' :: r' =>
+    let d := takeDigits r' 0 []
+    ({ v with hasPrec := true, prec := d.1, raw := v.raw ++ ('.' :: d.2.1) }, d.2.2)
+  | _ => (v, r)
+
+/-- argidx: `'[' num ']'` (`argidx_reset`, `argidx_num`); `none` = no transition -/
+def scanIdx (v : Verb) (r : List Char) : Option (Verb × List Char) :=
+  match r with
+  | '[' :: c :: r' =>
+    if isDigit c && c != '0' then
+      let d := takeDigits (c :: r') 0 []
+      match d.2.2 with
+      | ']' :: r'' => some ({ v with argNum := d.1, raw := v.raw ++ ('[' :: d.2.1) ++ [']'] }, r'')
+      | _ => none
+    else none
+  | '[' :: [] => none
+  | _ => some (v, r)
+
+/-- the mode letter (`action mode` up to `verb.Raw = data[ts:te]`) -/
+def scanMode (v : Verb) (r : List Char) : Option (Verb × List Char) :=
+  match r with
+  | c :: r' => if isLetter c then some ({ v with mode := c, raw := v.raw ++ [c] }, r') else none
+  | [] => none
 
 /-- the scanner after a '%' that is not followed by '%': `none` = the format string
 is invalid here (unrecognised character or premature end) -/
 def scanVerb (cs : List Char) (offset nextArg : Nat) : Option (Verb × List Char) :=
-  let v0 : Verb := { raw := ['%'], offset := offset, argNum := nextArg }
-  let (v1, r1) := takeFlags cs v0
-  -- width: num = [1-9][0-9]*
-  let (v2, r2) :=
-    match r1 with
-    | c :: _ => if isDigit c && c != '0' then
-        let d := takeDigits r1 0 []
-        ({ v1 with hasWidth := true, width := d.1, raw := v1.raw ++ d.2.1 }, d.2.2)
-      else (v1, r1)
-    | [] => (v1, r1)
-  -- precision: '.' digit*
-  let (v3, r3) :=
-    match r2 with
-    | '.' :: r => let d := takeDigits r 0 []
-      ({ v2 with hasPrec := true, prec := d.1, raw := v2.raw ++ ('.' :: d.2.1) }, d.2.2)
-    | _ => (v2, r2)
-  -- argidx: '[' num ']'
-  let r4 : Option (Verb × List Char) :=
-    match r3 with
-    | '[' :: c :: r =>
-      if isDigit c && c != '0' then
-        let d := takeDigits (c :: r) 0 []
-        match d.2.2 with
-        | ']' :: r' => some ({ v3 with argNum := d.1, raw := v3.raw ++ ('[' :: d.2.1) ++ [']'] }, r')
-        | _ => none
-      else none
-    | '[' :: [] => none
-    | _ => some (v3, r3)
-  match r4 with
+  let f := takeFlags cs { raw := ['%'], offset := offset, argNum := nextArg }
+  let w := scanWidth f.1 f.2
+  let p := scanPrec w.1 w.2
+  match scanIdx p.1 p.2 with
   | none => none
-  | some (v4, r) =>
-    match r with
-    | c :: r' => if isLetter c then some ({ v4 with mode := c, raw := v4.raw ++ [c] }, r') else none
-    | [] => none
+  | some i => scanMode i.1 i.2
 
 /-- `formatStripIndexSegment` -/
 def stripIndex (raw : List Char) : List Char :=
@@ -110,11 +131,14 @@ def precCut (clusters : String → List String) (v : Verb) (str : String) : Stri
 
 /-- `formatAppend`: the text to append -/
 def formatAppend (L : Lib) (v : Verb) (args : List Value) : Res String :=
+  -- `argIdx := verb.ArgNum - 1; if argIdx >= len(args) { error }; arg := args[argIdx]`
+  if v.argNum == 0 then .panic "index out of range [-1]" else
   match args[v.argNum - 1]? with
   | none => .err "not enough arguments"
   | some a =>
-    if v.argNum == 0 then .unmodelled else
-    if v.mode != 'v' && a.isNull then .err "null value cannot be formatted"
+    if v.hasWidth && v.width > formatMaxWidthPrec then .err "unsupported width"
+    else if v.hasPrec && v.prec > formatMaxWidthPrec then .err "unsupported precision"
+    else if v.mode != 'v' && a.isNull then .err "null value cannot be formatted"
     else
       match v.mode with
       | 'v' =>
